@@ -933,8 +933,130 @@ impl Check for BuilderFanIn {
     }
 }
 
+// ---------------------------------------------------------------------------------------------
+// mock_account_lag: the mock exchange's account connection behind the reconnecting combinators
+// ---------------------------------------------------------------------------------------------
+
+/// The account stream `ExecutionBuilder::add_mock` / `ExecutionManager::init` wrap with the
+/// reconnecting combinators is a broadcast subscription: a consumer that falls too far behind has
+/// irrecoverably lost updates — the connection's terminal error.
+#[derive(Debug, Clone, Serialize, Deserialize)]
+pub struct LagCase {
+    /// broadcast capacity selector (1..=16)
+    pub capacity: u8,
+    /// alternating phases: this many updates are broadcast, then the consumer takes what is ready
+    pub bursts: Vec<u8>,
+}
+
+pub struct MockAccountLag;
+
+impl Check for MockAccountLag {
+    type Case = LagCase;
+    const NAME: &'static str = "mock_account_lag";
+
+    fn normalise(mut case: LagCase) -> LagCase {
+        case.bursts.truncate(10);
+        for b in &mut case.bursts {
+            *b %= 40;
+        }
+        case
+    }
+
+    fn strategy(_tier: Tier) -> BoxedStrategy<LagCase> {
+        (1u8..=16, prop::collection::vec(prop_oneof![3 => 0u8..6, 1 => 0u8..40], 1..8)).prop_map(|(capacity, bursts)| LagCase { capacity, bursts }).boxed()
+    }
+
+    fn eval(case: &LagCase) -> CaseReport {
+        use barter_execution::{
+            AccountEvent, AccountEventKind, UnindexedAccountEvent,
+            balance::{AssetBalance, Balance},
+            client::{ExecutionClient, mock::{MockExecution, MockExecutionClientConfig}},
+            error::UnindexedClientError,
+        };
+        use barter_instrument::asset::name::AssetNameExchange;
+        use barter_integration::snapshot::Snapshot;
+        use rust_decimal::Decimal;
+        let mut rep = CaseReport::new();
+        macro_rules! bad {
+            ($sig:expr, $($fmt:tt)+) => {{ rep.fail($sig, format!($($fmt)+)); return rep; }};
+        }
+        let capacity = 1 + (case.capacity as usize).saturating_sub(1) % 16;
+        let rt = tokio::runtime::Builder::new_current_thread().enable_time().start_paused(true).build().expect("runtime");
+        // Some(n) = update n, None = reconnect notice
+        let seen: Result<Vec<Option<u64>>, String> = rt.block_on(async {
+            let (request_tx, _request_rx) = tokio::sync::mpsc::unbounded_channel();
+            let (event_tx, event_rx) = tokio::sync::broadcast::channel::<UnindexedAccountEvent>(capacity);
+            fn t0() -> chrono::DateTime<chrono::Utc> {
+                crate::props::gens::ts(crate::props::gens::T0_MS)
+            }
+            let client = <MockExecution<fn() -> chrono::DateTime<chrono::Utc>> as ExecutionClient>::new(MockExecutionClientConfig { mocked_exchange: ExchangeId::Mock, clock: t0 as fn() -> chrono::DateTime<chrono::Utc>, request_tx, event_rx });
+            let policy = ReconnectionBackoffPolicy { backoff_ms_initial: 1, backoff_multiplier: 1, backoff_ms_max: 1 };
+            let base = init_reconnecting_stream(move || {
+                let client = client.clone();
+                async move { client.account_stream(&[], &[]).await }
+            })
+            .await
+            .map_err(|e| format!("first account_stream failed: {e:?}"))?;
+            let mut stream = Box::pin(base.with_reconnect_backoff::<_, UnindexedClientError>(policy, StreamKey::new("verif", ExchangeId::Mock, None)).with_reconnection_events(ExchangeId::Mock));
+            let mut out: Vec<Option<u64>> = Vec::new();
+            let mut n = 0u64;
+            for burst in &case.bursts {
+                for _ in 0..*burst {
+                    n += 1;
+                    let update: UnindexedAccountEvent = AccountEvent { exchange: ExchangeId::Mock, kind: AccountEventKind::BalanceSnapshot(Snapshot(AssetBalance { asset: AssetNameExchange::new("usdt"), balance: Balance::new(Decimal::from(n), Decimal::from(n)), time_exchange: t0() })) };
+                    let _ = event_tx.send(update);
+                }
+                // everything that is ready within 10 virtual ms (re-initialisation included)
+                loop {
+                    match tokio::time::timeout(Duration::from_millis(10), stream.next()).await {
+                        Err(_) => break,
+                        Ok(None) => return Err("the reconnecting account stream ended".to_string()),
+                        Ok(Some(Event::Reconnecting(_))) => out.push(None),
+                        Ok(Some(Event::Item(ev))) => match ev.kind {
+                            AccountEventKind::BalanceSnapshot(Snapshot(b)) => out.push(Some(u64::try_from(b.balance.total).unwrap_or(u64::MAX))),
+                            other => return Err(format!("unexpected account event {other:?}")),
+                        },
+                    }
+                }
+            }
+            Ok(out)
+        });
+        let seen = match seen {
+            Ok(s) => s,
+            Err(e) => bad!("lag:stream", "{e}"),
+        };
+        // updates are delivered in order, at most once, and a hole is always announced
+        let mut last: Option<u64> = None;
+        let mut announced = true; // a fresh connection may start anywhere
+        for (i, s) in seen.iter().enumerate() {
+            match s {
+                None => announced = true,
+                Some(n) => {
+                    if last.is_some_and(|l| *n <= l) {
+                        bad!("lag:order", "update {n} delivered after update {:?}: {seen:?}", last);
+                    }
+                    if last.is_some_and(|l| *n != l + 1) && !announced {
+                        bad!("lag:unannounced-gap", "capacity {capacity}, bursts {:?}: update {n} follows update {:?} without a reconnect notice in between (position {i} of {seen:?})", case.bursts, last);
+                    }
+                    last = Some(*n);
+                    announced = false;
+                }
+            }
+        }
+        let total: u64 = case.bursts.iter().map(|b| *b as u64).sum();
+        if case.bursts.last().is_some_and(|b| *b > 0 && (*b as usize) < capacity) && last != Some(total) {
+            bad!("lag:tail-lost", "capacity {capacity}, bursts {:?}: the last burst fits the channel, yet update {total} was not delivered: {seen:?}", case.bursts);
+        }
+        let lagged = case.bursts.iter().any(|b| *b as usize > capacity.next_power_of_two());
+        rep.class_if(lagged, "consumer_fell_behind_by_more_than_the_capacity");
+        rep.class_if(seen.iter().any(|s| s.is_none()), "reconnect_notice");
+        rep.nontrivial = lagged;
+        rep
+    }
+}
+
 pub fn run(ctx: &mut Ctx) {
-    ctx.rule = "reconnect_script: script vec(outcome,1..12|24), outcome = init failure (after 0..300 ms) | connection (init 0..300 ms, 0..5 items = value / non-terminal error / terminal error, each after 0..500 ms); policy initial 1..5000 ms, multiplier 1..10, max = initial + {0, <20 s, <2000 s}; composition plain / + with_error_handler / + forward_to; paused clock. non-trivial = >= 2 successful connections AND >= 3 consecutive init failures AND the backoff cap reached; distinct by hash of the case. market_stream_entry: the same scripts through init_market_stream(policy, subscriptions) with a scripted in-process venue (delivery, notices and the waits of the policy passed in). builder_fan_in: 1..4 per-kind stream builders (public trades / L1 books), each covering a generated subset of 3 exchanges, added to one MultiStreamBuilder; 0..20|40 deliveries (item or reconnect notice, 15%) written into the builders' per-exchange channels one per virtual ms; every exchange's output must carry each input's deliveries in that input's order and nothing else; non-trivial = two builders deliver for one exchange. merge_order: two inputs defined by a slot sequence (one event per slot instant: left item, right item, left ends, right ends); non-trivial = both inputs contribute >= 2 items before the first end.".into();
+    ctx.rule = "reconnect_script: script vec(outcome,1..12|24), outcome = init failure (after 0..300 ms) | connection (init 0..300 ms, 0..5 items = value / non-terminal error / terminal error, each after 0..500 ms); policy initial 1..5000 ms, multiplier 1..10, max = initial + {0, <20 s, <2000 s}; composition plain / + with_error_handler / + forward_to; paused clock. non-trivial = >= 2 successful connections AND >= 3 consecutive init failures AND the backoff cap reached; distinct by hash of the case. market_stream_entry: the same scripts through init_market_stream(policy, subscriptions) with a scripted in-process venue (delivery, notices and the waits of the policy passed in). builder_fan_in: 1..4 per-kind stream builders (public trades / L1 books), each covering a generated subset of 3 exchanges, added to one MultiStreamBuilder; 0..20|40 deliveries (item or reconnect notice, 15%) written into the builders' per-exchange channels one per virtual ms; every exchange's output must carry each input's deliveries in that input's order and nothing else; non-trivial = two builders deliver for one exchange. mock_account_lag: the mock exchange's account connection (a broadcast subscription of capacity 1..16) behind init_reconnecting_stream + backoff + reconnection events; 1..7 phases of 0..39 broadcast updates followed by the consumer taking what is ready: updates arrive in order, at most once, and a hole is always preceded by a reconnect notice; non-trivial = a burst larger than the capacity. merge_order: two inputs defined by a slot sequence (one event per slot instant: left item, right item, left ends, right ends); non-trivial = both inputs contribute >= 2 items before the first end.".into();
     ctx.assumptions = vec![
         "tokio paused clock; instants compared with 1 ms tolerance (timer granularity)".into(),
         "policy has multiplier >= 1 and max >= initial".into(),
@@ -949,8 +1071,10 @@ pub fn run(ctx: &mut Ctx) {
     ctx.run::<MergeOrder>(ctx.tier.pick(60_000, 1_000_000));
     ctx.run_regressions::<BuilderFanIn>();
     ctx.run::<BuilderFanIn>(ctx.tier.pick(20_000, 300_000));
+    ctx.run_regressions::<MockAccountLag>();
+    ctx.run::<MockAccountLag>(ctx.tier.pick(20_000, 300_000));
 }
 
 pub fn replay(ctx: &mut Ctx, doc: &Value) -> bool {
-    ctx.replay::<ReconnectScript>(doc) || ctx.replay::<MarketStreamEntry>(doc) || ctx.replay::<MergeOrder>(doc) || ctx.replay::<BuilderFanIn>(doc)
+    ctx.replay::<ReconnectScript>(doc) || ctx.replay::<MarketStreamEntry>(doc) || ctx.replay::<MergeOrder>(doc) || ctx.replay::<BuilderFanIn>(doc) || ctx.replay::<MockAccountLag>(doc)
 }
